@@ -7,7 +7,7 @@ META = {
     'level': 'proof',
     'rule': 'all regexp trees with <=2 (quick) / <=3 (thorough) operator nodes over {a,b} x all words of length <=3 (4), '
             'then seeded random trees of size <=12; non-trivial = tree containing a star or a 0/1 inside a product/sum; '
-            'distinct by tree; the simplifier also on trees whose symbols have several letters (language compared on strings)',
+            'distinct by tree; the simplifier also on trees whose symbols have several letters (language compared on strings); stars over operands that contain a star x all words of length <=6',
     'assumptions': ['symbols are single characters (Python compares w == r.symbol on strings)'],
     'trusted_base': ['Spec: Gamba/Spec/Regexp.lean (Lang)'],
 }
@@ -55,6 +55,21 @@ def cases(ctx):
         else:
             r = ['star', ['sum', [o1, x, ['star', y]], [o2, x, ['star', y]]]]
         yield {'r': r, 'words': gen.all_words(Sig, 4)}
+    # a star whose operand contains another star (one iteration may consume arbitrarily many letters): all words up to length 6
+    for i in range(30 if not thorough else 300):
+        x = gen.random_regexp(rng, rng.randint(0, 2), Sig)
+        y = gen.random_regexp(rng, rng.randint(0, 2), Sig)
+        shape = rng.randint(0, 3)
+        if shape == 0:
+            r = ['star', ['cat', ['star', x], y]]
+        elif shape == 1:
+            r = ['cat', ['star', ['cat', y, ['star', x]]], y]
+        elif shape == 2:
+            r = ['star', ['sum', ['cat', ['star', x], y], ['cat', y, y]]]
+        else:
+            r = ['star', ['cat', ['cat', x, ['star', ['cat', x, y]]], y]]
+        if not thorough or ctx.mine(i):
+            yield {'r': r, 'words': gen.all_words(Sig, 6)}
     # identifiers of several letters (parse_regexp allows them): a symbol is matched against the whole word, w == symbol
     for i in range(80 if not thorough else 800):
         Sg = rng.choice([['ab', 'a', 'b'], ['x1', 'x2'], ['ab', 'ba'], ['abc', 'a']])
